@@ -25,6 +25,12 @@ TEXT = {
             "exhaustive enumeration of factor graphs against a brute-force unrolled reference", "3 C09"),
     "C10": ("All durations x state-pair sizes x batch inputs x dependence subsets x segment counts x 5 semirings through sequential / naive / mixed sum-product and MarkovProduct (eager, lazy+reinterpret, renamed), all lag sets for sarkka_bilmes_product, against the explicit left-to-right fold.",
             "exhaustive enumeration of inputs against an explicit fold reference", "3 C10"),
+    "C11": ("All sum-product expressions with 1-4/5 leaf tensors over {a:2,b:3,c:2,d:1} (flat, nested, renamed / sliced / index-substituted / concatenated / twice-used leaves, plates incl. semiring-zero cells) x reduced subsets x 2 semirings x optimizer routes: forward value and every leaf's adjoint against the brute-force indicator-derivative of the joint table.",
+            "exhaustive enumeration of expressions against a brute-force derivative of the joint table", "3 C11"),
+    "C12": ("All Gaussian signatures (1-3 real inputs of shapes ()..(2,2), 0-2 batch inputs, every interleaving, ranks 0..2*dim+1) x every variant of each pointwise operation family (add, real/int/slice/index/rename/affine substitution, align, rank compression, Cat, 3x4 constructor parametrisations) composed to depth 2/3, evaluated on the unisolvent lattice against the dense quadratic form.",
+            "exhaustive enumeration of signatures x operations against a dense reference, decided on a unisolvent point set", "3 C12"),
+    "C13": ("All full-rank Gaussian signatures x every subset of real inputs marginalised in one step / two steps / around pointwise evaluation, log-normaliser, plate sums, mixture reductions, Integrate against variables and Gaussians, moment matching of 2-6 component mixtures, and rank-deficient negative cases, against dense closed forms (Schur complement, logdet, moments).",
+            "exhaustive enumeration of signatures x operations against closed forms", "3 C13"),
     "C14": ("Delta grammar (points, log-densities, substituted values, integrands) enumerated exhaustively against the point-mass semantics; Tensor sampling explored as environment answers: every prescribed uniform draw placed in every CDF interval, on every boundary, at 0.0 and nextafter(1,0), 0 then 1 (quick) then 2 (thorough) deviations from the default draw, checking support, selected cell, mass identity, inputs and determinism; Gaussian sampling with prescribed noise (0, unit vectors): affine in the noise with the dense conditional mean and covariance.",
             "deviation-bounded exhaustive enumeration of environment answers (random draws) and exhaustive input enumeration against closed forms", "3 C14"),
     "C15": ("Every entry of UNITS, DISTRIBUTIVE_OPS, BINARY/SAFE_BINARY/UNARY_INVERSES, PRODUCT_TO_POWER on an exact-arithmetic operand grid restricted to the op's carrier; every op on every pair of operand forms (Python scalar, numpy scalar, 0-d, arrays up to (3,2)); limit behaviour of logaddexp/logsumexp/log-space einsum with -inf in every position; no-NaN of the safe ops.",
